@@ -6,7 +6,7 @@ import t1, gen_designs as G, dump_ir as D
 OBLIGATIONS = ['C06.gen_wire_put_eq', 'C06.gen_wire_prepare_eq', 'C06.gen_bidir_put_eq', 'C06.gen_bidir_prepare_eq',
                'C06.gen_wire_put_lt', 'C06.gen_wire_prepare_lt', 'C06.inv_putW', 'C06.inv_prepW', 'C06.inv_propLeaf',
                'C06.inv_propagateAll', 'C06.inv_clockLeaf', 'C06.inv_clockDrivers', 'C06.inv_settleAll',
-               'C06.inv_atListeners', 'C06.inv_clkCycle', 'C06.inv_clk', 'C06.inv_power_up', 'C06.inv_applyOp',
+               'C06.inv_atListeners', 'C06.inv_clkCycle', 'C06.inv_clk', 'C06.inv_power_up', 'C06.inv_power_upC', 'C06.wire_values_fitC', 'C06.inv_applyOp',
                'C06.wire_values_fit', 'C06.wire_values_fit_at_listeners', 'Bits.land_mask', 'Bits.put_lt']
 
 
